@@ -324,11 +324,14 @@ pub fn run(ctx: &Ctx, rep: &mut Report) {
         });
         // 3. from_mut_bytes
         let r_fmb = guarded(|| (vt.from_mut_bytes)(arena.slice_mut(), &mut |_v| {}));
+        // 4. FlatWrap::from_wrapped_bytes (the checked wrapper constructor)
+        let mut wrap_read: Option<Value> = None;
+        let r_wrap = guarded(|| (vt.wrap_from)(arena.slice(), &mut |v| wrap_read = Some(v.read())));
         let canary = arena.check_canaries();
         let unchanged = arena.slice() == &case.input.bytes[..];
 
         let passed_gate = n >= vt.min_size && addr % vt.align == 0;
-        for (api, r) in [("validate", &r_val), ("from_bytes", &r_fb), ("from_mut_bytes", &r_fmb)] {
+        for (api, r) in [("validate", &r_val), ("from_bytes", &r_fb), ("from_mut_bytes", &r_fmb), ("FlatWrap::from_wrapped_bytes", &r_wrap)] {
             match r {
                 Err(p) if is_harness_panic(p) => rep.harness_error(format!("{} idx={} {}", api, idx, p)),
                 Err(p) => {
@@ -350,6 +353,26 @@ pub fn run(ctx: &Ctx, rep: &mut Report) {
             );
         }
         // agreement between the three entry points
+        if let (Ok(a), Ok(w)) = (&r_val, &r_wrap) {
+            if a.is_ok() != w.is_ok() {
+                rep.violation(
+                    format!("{}|wrapper-disagrees-with-validate|{}", ctx.prop, kind_path(d)),
+                    format!("FlatWrap::from_wrapped_bytes on {}: {:?}, validate: {:?}", vt.name, w, a),
+                    cj(),
+                );
+            }
+            if c02 && w.is_ok() {
+                if let (Some(wv), Some(ev)) = (&wrap_read, &expect_val) {
+                    if wv != ev {
+                        rep.violation(
+                            format!("C02|inconsistent-view|{}|wrapper-content-differs-from-reference", kind_path(d)),
+                            format!("{}: FlatWrap reads {} but the reference decoding is {}", vt.name, wv.short(), ev.short()),
+                            cj(),
+                        );
+                    }
+                }
+            }
+        }
         if let (Ok(a), Ok(b), Ok(c)) = (&r_val, &r_fb, &r_fmb) {
             if a.is_ok() != b.is_ok() || a.is_ok() != c.is_ok() {
                 rep.violation(
